@@ -423,7 +423,10 @@ let () =
         let r = { s = enc; i = 0 } in
         (match rptree r with
          | PBranch kids ->
-             (match parse_begin (nat_of_int 500) kids with
+             (* the walker regenerated from TreeWalker.__walk; it must also agree with the hand model *)
+             let gen = parse_begin_with walk_gen (nat_of_int 500) kids in
+             if gen <> parse_begin (nat_of_int 500) kids then "MODELS-DIFFER" else
+             (match gen with
               | Some g ->
                   String.concat "\x1f" (List.map (fun n -> hex_of (implode n)) g.g_nodes) ^ "\t" ^
                   String.concat "\x1f" (List.map (fun ((p, c), l) -> Printf.sprintf "%d,%d,%s" (int_of_nat p) (int_of_nat c) (hex_of (implode l))) g.g_edges)
